@@ -251,12 +251,13 @@ RULES = [
 
 def apply(F, S):
     for s in F.indicators():
+        if s not in NAMES:
+            # an indicator the property does not name (added later): no documented parameters, Display text or defaults to compare with
+            S.ok("K4", "%s: not one of the indicators the property names — outside its scope" % s)
+            continue
         c = fieldclass.ctor(F, s)
         if c is None or c["ok"] is None:
             S.bad("K1", "anchor", s, "no analysable constructor for %s" % s)
-            continue
-        if s not in NAMES:
-            S.bad("K4", "unknown-indicator", s, "indicator %s is not in the documented table" % s)
             continue
         k1_zero_check(F, S, s, c)
         k2_no_panic(F, S, s, c)
